@@ -51,15 +51,34 @@ class RankEval:
         self.report = report
         self.rule = rule
         self.env = {}
+        self.hooks = {}
         self.n = 0
         for (q, p), r in PUBLIC_PARAM_RANKS.items():
             if q == fi.qualname:
                 self.env[p] = set(r)
 
+    ELEMENTWISE = ('erf', 'erfc', 'expi', 'exp1', 'np.exp', 'np.sqrt',
+                   'np.sin', 'np.cos', 'np.log', 'np.abs', 'abs',
+                   'np.real', 'np.squeeze_keep')
+
     def rank(self, e):
         """set of possible ranks, or None (unknown)"""
         if isinstance(e, ast.Constant):
-            return {0} if isinstance(e.value, (int, float)) else None
+            return {0} if isinstance(e.value, (int, float, complex)) \
+                else None
+        if isinstance(e, ast.Attribute) and text(e) in ('np.pi', 'math.pi'):
+            return {0}
+        if isinstance(e, ast.Attribute) and e.attr in ('real', 'imag', 'T'):
+            return self.rank(e.value)
+        if isinstance(e, ast.Call) and text(e.func) in self.hooks:
+            return set(self.hooks[text(e.func)])
+        if isinstance(e, ast.Call) and text(e.func) in self.ELEMENTWISE \
+                and e.args:
+            return self.rank(e.args[0])
+        if isinstance(e, ast.Call) and text(e.func) == 'np.squeeze' and \
+                e.args:
+            r = self.rank(e.args[0])
+            return {0} if r is not None else None
         if isinstance(e, ast.Name):
             return self.env.get(e.id)
         if isinstance(e, (ast.List, ast.Tuple)):
@@ -75,6 +94,8 @@ class RankEval:
             if l is None or r is None:
                 return None
             return {max(a, b) for a in l for b in r}
+        if isinstance(e, ast.Lambda):
+            return None
         if isinstance(e, ast.Subscript):
             base = self.rank(e.value)
             if base is None:
